@@ -22,27 +22,114 @@ abbrev Toks := List String
 
 def render (ts : Toks) : String := " ".intercalate ts
 
+/-! ## classes: decidable predicates on source text
+
+Only the shapes of the open known findings; everything else is class "good". -/
+
+def hasSub (s pat : String) : Bool := (s.splitOn pat).length > 1
+
+/-- the text spells one of the attribute names that `rel.NewTuple` specialises (and asserts on) -/
+def mentionsSugar (s : String) : Bool := hasSub s "@char" || hasSub s "@byte" || hasSub s "@item"
+
+def isOperandEnd (c : Char) : Bool :=
+  c.isAlphanum || c == ')' || c == ']' || c == '}' || c == '\'' || c == '"' || c == '_' || c == '.'
+
+/-- `\` that starts a function (`\x …`, `\(a: x) …`) rather than an offset (`2\[1]`, `a \ b`) or a
+string escape: the previous non-blank character does not end an operand and the next non-blank
+character can start a pattern. -/
+def hasLambdaFrom : Option Char → List Char → Bool
+  | _, [] => false
+  | prev, c :: rest =>
+    if c == '\\' then
+      let next := (rest.dropWhile (· == ' ')).head?
+      let startsPattern := match next with
+        | some n => n.isAlpha || n == '_' || n == '(' || n == '[' || n == '{' || n == '.' || n == '$' || n == '@'
+        | none => false
+      let afterOperand := match prev with
+        | some q => isOperandEnd q
+        | none => false
+      if startsPattern && !afterOperand then true else hasLambdaFrom (some c) rest
+    else if c == ' ' then hasLambdaFrom prev rest
+    else hasLambdaFrom (some c) rest
+
+/-- `//name`: a reference to the standard library (as opposed to the operator `a // b`) -/
+def hasStdRef : List Char → Bool
+  | '/' :: '/' :: c :: rest => if c.isAlpha || c == '{' then true else hasStdRef ('/' :: c :: rest)
+  | _ :: rest => hasStdRef rest
+  | [] => false
+
+/-- the text contains a function value (a λ or a standard-library reference) -/
+def mentionsFn (s : String) : Bool := hasLambdaFrom none s.toList || hasStdRef s.toList
+
+/-- `...` whose innermost enclosing bracket is `{`: a set (or dict) pattern with a rest element -/
+def restInBraces : List Char → List Char → Bool
+  | _, [] => false
+  | stack, '.' :: '.' :: '.' :: rest => if stack.head? == some '{' then true else restInBraces stack rest
+  | stack, c :: rest =>
+    if c == '{' || c == '(' || c == '[' then restInBraces (c :: stack) rest
+    else if c == '}' || c == ')' || c == ']' then restInBraces (stack.drop 1) rest
+    else restInBraces stack rest
+
+def setPatternRest (s : String) : Bool := restInBraces [] s.toList
+
+/-- a brace group with a bracketed group among its direct members, followed by `:` or `=`: a set
+written where `cond`, `filter` or `let` expect a pattern, whose members are tuple, array or set
+patterns (`cond x {{(a: 1)}: 1}`, `let {[x]} = s; x`) -/
+def bracePat : List (Char × Bool) → List Char → Bool
+  | _, [] => false
+  | stack, c :: rest =>
+    if c == '{' || c == '(' || c == '[' then
+      let stack := match stack with
+        | (p, _) :: tl => (p, true) :: tl
+        | [] => []
+      bracePat ((c, false) :: stack) rest
+    else if c == '}' || c == ')' || c == ']' then
+      match stack with
+      | (p, flag) :: tl =>
+        let next := (rest.dropWhile (· == ' ')).head?
+        if p == '{' && c == '}' && flag && (next == some ':' || next == some '=') then true
+        else bracePat tl rest
+      | [] => bracePat [] rest
+    else bracePat stack rest
+
+def compoundSetPattern (s : String) : Bool := bracePat [] s.toList
+
+/-- the shapes of KF-pinned-panics -/
+def pinnedShape (s : String) : Bool := setPatternRest s || mentionsSugar s || compoundSetPattern s
+
+/-- class of a source text none of whose parts is in function position by construction -/
+def classifyText (s : String) : String :=
+  if pinnedShape s then "KF-pinned-panics"
+  else if hasSub s "//grammar" then "KF-grammar-parse"
+  else if mentionsFn s then "KF-function-as-set"
+  else "good"
+
 /-! ## operands -/
 
 /-- literal operands that `Lit` cannot spell -/
 def oddOperands : List String :=
-  ["1.5", "0.5", "(-0.5)", "1e3", "(\\x x)", "(\\x \\y x)", "(\\(a: x) x)", "//seq.concat", "//str.upper",
-   "(1/0)", "(0/0)", "{1, 'a', (), {}}", "{(a: 1), (b: 2)}", "{(a: 1), 2}", "(a: (b: (c: 1)))",
+  ["1.5", "0.5", "(-0.5)", "1e3", "(1/0)", "(0/0)", "{1, 'a', (), {}}", "{(a: 1), (b: 2)}", "{(a: 1), 2}", "(a: (b: (c: 1)))",
    "{'a': 1, 2: 'b'}", "{|a| (1), ({})}", "[[1, 2], [3]]", "['a', 'bc']", "[<<1>>, <<2, 3>>]",
    "<<'ab', 1>>", "2\\'ab'", "2\\[1, 2]", "(-1)\\<<1, 2>>", "{(@: 0, @item: 1), (@: 0, @item: 2)}",
    "{(@: 0, @char: 97), (@: 2, @char: 98)}", "{(@: 0, @byte: 1), (@: 5, @byte: 2)}",
    "{(@: 1, @value: 2), (@: 1, @value: 3)}", "{(@: 0, @item: 1), 7}", "{(@: 0, @char: 97), (@: 0, @item: 1)}",
    "(@: 1.5, @item: 2)", "(@: 0, @char: 1.5)", "(@: 0, @byte: 300)", "(@: (-1), @char: (-1))",
-   "(@: 0, @item: (\\x x))", "(@: 0, @value: 0)", "(@: 0)", "(@char: 97)", "(@: 0, @char: 97, x: 1)",
+   "(@: 0, @value: 0)", "(@: 0)", "(@char: 97)", "(@: 0, @char: 97, x: 1)",
    "('': 1)", "('a b': 1)", "{(): 1}", "{{}: {}}", "true", "false", "{()}", "{{}}", "{{()}}"]
 
+/-- function-valued operands (a λ or a reference to a standard-library function) -/
+def fnOperands : List String :=
+  ["(\\x x)", "(\\x \\y x)", "(\\(a: x) x)", "//seq.concat", "//str.upper", "(\\f \\n n)", "{(\\x x)}", "(a: (\\x x))",
+   "[(\\x x)]", "(@: 0, @item: (\\x x))"]
+
 def genOperand : Gen String := do
-  let r ← rand 10
-  if r < 6 then
+  let r ← rand 20
+  if r < 12 then
     let d ← rand 3
     let l ← Lit.genLit d
     pure l.src
-  else if r < 9 then pick oddOperands
+  else if r < 17 then pick oddOperands
+  else if r < 18 then pick fnOperands
   else pick ["x", "y", "."]
 
 /-! ## operator stream -/
@@ -136,24 +223,35 @@ def genOpApp (a b c : String) : Gen (String × String) := do
     | 1 => pure (s!"{a} filter . " ++ "{" ++ s!"{b}: 1, [x, ...]: x" ++ "}", "filter")
     | _ => pure (s!"{a} ->* x({b})", "touch")
 
-def genOpExpr : Nat → Gen (String × String)
+/-- (source, stratum, operands used): the class is computed from the operands and the operator
+text, not from the function bodies the arrow operators bring along -/
+def genOpExpr : Nat → Gen (String × String × List String)
   | 0 => do
     let a ← genOperand
     let b ← genOperand
     let c ← genOperand
-    genOpApp a b c
+    let (s, k) ← genOpApp a b c
+    pure (s, k, [a, b, c])
   | d + 1 => do
     let deep ← chance 1 2
-    let (a, _) ← if deep then genOpExpr d else do pure ((← genOperand), "")
+    let (a, _, used) ← if deep then genOpExpr d else do
+      let o ← genOperand
+      pure (o, "", [o])
     let b ← genOperand
     let c ← genOperand
     let (s, k) ← genOpApp s!"({a})" b c
-    pure (s, k)
+    pure (s, k, b :: c :: used)
 
-def bindXY (s : String) : Gen String := do
+/-- class of an operator-stream case -/
+def classifyOps (src : String) (operands : List String) : String :=
+  if pinnedShape src then "KF-pinned-panics"
+  else if operands.any mentionsFn then "KF-function-as-set"
+  else "good"
+
+def bindXY (s : String) : Gen (String × List String) := do
   let x ← genOperand
   let y ← genOperand
-  pure (s!"let x = {x}; let y = {y}; {s}")
+  pure (s!"let x = {x}; let y = {y}; {s}", [x, y])
 
 /-! ## standard library stream -/
 
@@ -198,27 +296,43 @@ def genLibArg : Gen String := do
   let r ← rand 4
   if r < 2 then pick libArgs else genOperand
 
-def genLibCall : Gen (String × String) := do
+/-- functions whose result is (or contains) a function even when fully applied -/
+def fnReturning : List String :=
+  ["//fn.fix", "//fn.fixt", "//eval.evaluator", "//re.compile", "//flag.parser", "//encoding.proto.decode",
+   "//encoding.json.decoder", "//encoding.json.encoder", "//encoding.csv.decoder", "//encoding.csv.encoder",
+   "//encoding.yaml.decoder", "//encoding.yaml.encoder", "//encoding.xml.decoder"]
+
+/-- (source, stratum, class) -/
+def genLibCall : Gen (String × String × String) := do
   let (path, maxArgs, core) ← pick libFns
   let nargs ← rand (maxArgs + 1)
   let nargs := if nargs == 0 then maxArgs else nargs
   let args ← genList nargs genLibArg
   let call := path ++ String.join (args.map (fun a => s!"({a})"))
+  let full := nargs == maxArgs && !fnReturning.contains path
   let wrap ← rand 8
-  let call ← match wrap with
-    | 0 => do pure (s!"{call}({← genLibArg})")
-    | 1 => do pure (s!"{call} count")
-    | 2 => do pure (s!"{← genLibArg} >> {path}")
-    | 3 => do pure (s!"{← genLibArg} => {path}")
-    | _ => pure call
-  pure (call, (if core then "lib/" else "lib-ext/") ++ path)
+  let extra ← genLibArg
+  let (call, used) := match wrap with
+    | 0 => if full then (s!"{call}({extra})", extra :: args) else (call, args)
+    | 1 => if full then (s!"{call} count", args) else (call, args)
+    | 2 => (s!"{extra} >> {path}", [extra])
+    | 3 => (s!"{extra} => {path}", [extra])
+    | _ => (call, args)
+  let cls :=
+    if used.any pinnedShape then "KF-pinned-panics"
+    else if path == "//grammar.parse" then "KF-grammar-parse"
+    else if used.any mentionsFn then "KF-function-as-set"
+    else "good"
+  pure (call, (if core then "lib/" else "lib-ext/") ++ path, cls)
 
 /-! ## valid programs as token lists (the seeds of the mutation stream) -/
 
 def idents : List String := ["x", "y", "z", "f", "t"]
 
-def genAtomT : Gen Toks := do
+/-- `fnFree`: no λ and no standard-library reference anywhere in the program -/
+def genAtomT (fnFree : Bool) : Gen Toks := do
   let r ← rand 16
+  let r := if fnFree && (r == 11 || r == 12) then 13 else r
   match r with
   | 0 => pure ["1"] | 1 => pure ["0"] | 2 => pure ["2.5"] | 3 => pure ["'ab'"] | 4 => pure ["\"c\\n\""]
   | 5 => pure ["true"] | 6 => pure ["{", "}"] | 7 => pure ["(", ")"] | 8 => pure ["[", "]"]
@@ -248,11 +362,12 @@ def genPatT : Nat → Gen Toks
     | 6 => pure ["(", "x", ")"]
     | _ => genPatT 0
 
-def genProgT : Nat → Gen Toks
-  | 0 => genAtomT
+def genProgT (fnFree : Bool) : Nat → Gen Toks
+  | 0 => genAtomT fnFree
   | d + 1 => do
     let r ← rand 30
-    let e := genProgT d
+    let r := if fnFree && (r == 5 || r == 6 || r == 15 || r == 26 || r == 27) then r + 7 else r
+    let e := genProgT fnFree d
     match r with
     | 0 | 1 => do
       let op ← pick ["+", "-", "*", "/", "%", "++", "|", "&", "&~", "with", "without", "<", "=", "!=", "<=", "<:", "&&", "||",
@@ -288,7 +403,7 @@ def genProgT : Nat → Gen Toks
     | 25 => do pure ((← e) ++ ["filter", ".", "{"] ++ (← genPatT 1) ++ [":"] ++ (← e) ++ ["}"])
     | 26 => do pure (["//seq.join", "("] ++ (← e) ++ [",", ] ++ (← e) ++ [")"])
     | 27 => do pure (["let", "rec", "f", "=", "\\", "x"] ++ (← e) ++ [";", "f", "(", "1", ")"])
-    | _ => genAtomT
+    | _ => genAtomT fnFree
 
 /-! ## mutations -/
 
